@@ -47,6 +47,51 @@ class ClassRef:
     def __repr__(self):
         return '<class %s.%s>' % (self.modname, self.name)
 
+class ModuleRef:
+    """A module of the repository used as a component object (its functions are called as attributes)."""
+    _sa_fold_ok = True
+    def __init__(self, folder, modname):
+        self._folder, self._modname = folder, modname
+    def __getattr__(self, name):
+        if name.startswith('_'):
+            raise AttributeError(name)
+        mod = self._folder.repo.mod(self._modname)
+        if name in mod.funcs:
+            return FuncRef(self._folder.sibling(self._modname), self._modname, name)
+        if name in mod.classes:
+            return ClassRef(self._modname, name)
+        if name in mod.assigns:
+            return self._folder.sibling(self._modname).module_value(name)
+        raise AttributeError(name)
+
+def components_hook(get_folder, overrides=None):
+    """Hook for skoolkit.components: get_component(name, *args) / get_value(name) resolved from the defaults table in config.py
+    (COMMANDS['skoolkit']); `overrides` maps a component name to a factory of model objects."""
+    overrides = overrides or {}
+    table = {}
+    def f(n, lit):
+        if isinstance(n, ast.Call) and isinstance(n.func, ast.Name) and n.func.id in ('get_component', 'get_value') and n.func.id not in lit.env:
+            cf = get_folder()
+            if not table:
+                cmds = Lit(cf.repo, 'config').ev(cf.repo.mod('config').assigns['COMMANDS'][-1])
+                table.update(cmds['skoolkit'])
+            a = lit._seq(n.args)
+            name = a[0]
+            if n.func.id == 'get_value':
+                return table[name]
+            if name in overrides:
+                return overrides[name](*a[1:])
+            spec = table[name]
+            parts = spec.split('.')
+            if parts[0] != 'skoolkit':
+                raise NotLiteral('component ' + spec)
+            if len(parts) == 2:
+                return ModuleRef(cf, parts[1])
+            return cf.sibling(parts[1]).new(parts[2], *a[1:])
+        return None
+    f.wants_lit = True
+    return f
+
 class FuncRef:
     """A module-level function of the repository held as a value."""
     _sa_fold_ok = True
@@ -114,11 +159,21 @@ class ClassFolder:
             mutable = isinstance(node, (ast.Dict, ast.List, ast.Set)) and not (getattr(node, 'keys', None) or getattr(node, 'elts', None))
             if isinstance(node, ast.Call) and isinstance(node.func, ast.Name) and node.func.id in ('dict', 'list', 'set', 'defaultdict') and not node.args:
                 mutable = True
+            if isinstance(node, ast.Call) and not node.args and not node.keywords and isinstance(node.func, ast.Attribute) and isinstance(node.func.value, ast.Name) \
+               and node.func.value.id in self.mod.imports and node.func.attr[:1].isupper():
+                mutable = True          # NAME = module.Class(): one instance per session
             if mutable:
                 self.lazy_singletons.add(name)
                 self.override_names.add(name)
 
     lazy_singletons = None
+
+    def module_value(self, name):
+        """The one object a module-level name is bound to in this fold session (mutable containers, component instances)."""
+        g = self.modglobals.setdefault(self.modname, {})
+        if name not in g:
+            g[name] = Lit(self.repo, self.modname, {}, self.hook()).ev(self.mod.assigns[name][-1])
+        return g[name]
 
     def sibling(self, modname):
         """Folder for another module sharing this one's hook, model files and module globals."""
@@ -162,9 +217,7 @@ class ClassFolder:
                     v = self.modglobals[self.modname][n.id]
                     return FOLDED_NONE if v is None else v
                 if n.id in self.lazy_singletons and n.id in self.mod.assigns:
-                    v = Lit(self.repo, self.modname).ev(self.mod.assigns[n.id][-1])
-                    self.modglobals.setdefault(self.modname, {})[n.id] = v
-                    return v
+                    return self.module_value(n.id)
                 if n.id in self.mod.classes:
                     return ClassRef(self.modname, n.id)
                 if n.id in self.mod.funcs:
@@ -178,6 +231,14 @@ class ClassFolder:
                                 return ('fx', m2, orig)
                             if orig in self.repo.mod(m2).classes:
                                 return ClassRef(m2, orig)
+                            if orig in self.sibling(m2).lazy_singletons:
+                                return self.sibling(m2).module_value(orig)
+                        except FactError:
+                            pass
+                    if src == 'skoolkit':
+                        try:
+                            self.repo.mod(orig)
+                            return ModuleRef(self, orig)          # `from skoolkit import z80`
                         except FactError:
                             pass
                 return None
@@ -286,6 +347,8 @@ class ClassFolder:
                 if isinstance(target, (BoundMethod, Closure, Partial, FuncRef)):
                     r = target(*lit._seq(n.args), **lit._kw(n.keywords))
                     return FOLDED_NONE if r is None else r
+                if isinstance(target, ClassRef):
+                    return self.sibling(target.modname).new(target.name, *lit._seq(n.args), **lit._kw(n.keywords))
             return None
         f.wants_lit = True
         f.override_names = self.override_names
